@@ -796,6 +796,7 @@ def _gen_call(rng, pool_kinds):
     return {"k": "call", "f": key, "args": args}
 
 
+EXPENSIVE = {"peaks.fit_peaks", "absorption.compute_transmission_map"}
 _GRID = []
 GRID_RUNS = 64
 
@@ -911,7 +912,26 @@ def generate(rng, tier, i):
                 pts = []
                 for _ in range(rng.randrange(1, 4)):
                     at = int(10 ** rng.uniform(0, 2.3)) - 1
-                    if handles and rng.random() < 0.7:
+                    r3 = rng.random()
+                    if r3 < 0.35:
+                        # another caller calls into the library (same function as the host, or any)
+                        nested = _gen_call(rng, [])
+                        while nested["f"] in EXPENSIVE:
+                            nested = _gen_call(rng, [])
+                        if op["k"] == "call" and rng.random() < 0.6 and op["f"] not in EXPENSIVE:
+                            nested = copy.deepcopy({k: v for k, v in op.items() if k != "preempt"})
+                            for a in nested["args"].values():
+                                if "ref" in a:
+                                    a.clear()
+                                    a.update({"skip": True})
+                                elif "form" in a:
+                                    a["form"]["seed"] = rng.randrange(1 << 30)
+                            if any("skip" in a for a in nested["args"].values()):
+                                nested = _gen_call(rng, [])
+                                while nested["f"] in EXPENSIVE:
+                                    nested = _gen_call(rng, [])
+                        nested["nested_fresh"] = True
+                    elif handles and r3 < 0.8:
                         h = rng.choice(sorted(handles))
                         nested = rng.choice([{"k": "mutate", "h": h, "how": rng.choice(sorted(MUTATIONS))},
                                              {"k": "observe", "h": h}])
@@ -975,6 +995,7 @@ def _exec_op(world, scn_ops, op, fresh=False):
     if k == "call":
         fn = CALLS[op["f"]][0]()
         kwargs = {}
+        fresh = fresh or bool(op.get("nested_fresh"))  # nested calls bring their own, unpooled args
         for name, spec in op["args"].items():
             kwargs["data" if name == "$data" else name] = _materialise(world, scn_ops, spec, fresh)
         if world.after_build is not None:
